@@ -99,9 +99,9 @@ def run_case_full(case):
         sig = d[0]
         if sig == "responses/status/400~413" and "max_request_body_size" in adj:
             its = REQ.parse_stream(s2b(stream))
-            # the last message is chunked and its chunk syntax is malformed, or of a form the reference leaves open (e.g. whitespace inside
+            # a message is chunked and its chunk syntax is malformed, or of a form the reference leaves open (e.g. whitespace inside
             # a chunk extension) and the server refuses: in both cases the receiver has flagged an error when the size check runs
-            if its and its[-1].framing == "chunked" and (its[-1].verdict == REQ.MUST_REFUSE or any(n.startswith("chunk") for n in its[-1].notes)):
+            if any(i.framing == "chunked" and (i.verdict == REQ.MUST_REFUSE or any(n.startswith("chunk") for n in i.notes)) for i in its):
                 sig += "/malformed-chunked-body-reaching-body-limit"
         fails.append({"sig": "C02/" + sig, "detail": "one piece vs cuts %r: %s" % (cuts[:12], d[1])})
     # classification
